@@ -34,7 +34,7 @@ fn flat(width: u32) -> Vec<Reg> {
     (1..=width).map(|t| Reg::Sys { tag: t, name: format!("s{}", t), deps: vec![], reads: vec![], writes: vec![100 + t], time: 3, kind: SysKind::Dynamic }).collect()
 }
 
-/// cfg: user | default | batch | async | foreign ; returns "arrived=<max simultaneously inside>;timeout=<0|1>;ok=<0|1>" per repetition
+/// cfg: user | default | batch | async | foreign | defbatch ; returns "arrived=<max simultaneously inside>;timeout=<0|1>;ok=<0|1>" per repetition
 pub fn observe(cfg: &str, width: u32, pool_size: usize, reps: u32, limit_ms: u64) -> String {
     let rec = Recorder::new(MapMode::B);
     rec.set_caller();
@@ -42,8 +42,15 @@ pub fn observe(cfg: &str, width: u32, pool_size: usize, reps: u32, limit_ms: u64
     let regs: Vec<Reg> = if cfg == "batch" {
         vec![Reg::Batch { tag: 1000, name: "b".into(), deps: vec![], creads: vec![], cwrites: vec![], time: 5, count: 1,
                           ctl: CtlKind { menu: 0, multi: false }, inner: flat(width) }]
+    } else if cfg == "defbatch" {
+        // a narrow batch registered FIRST (its builder shares the pool handle and is built first), then the wide stage
+        let inner = vec![Reg::Sys { tag: 1001, name: "i".into(), deps: vec![], reads: vec![], writes: vec![300], time: 3, kind: SysKind::Dynamic }];
+        let mut v = vec![Reg::Batch { tag: 1000, name: "b".into(), deps: vec![], creads: vec![], cwrites: vec![], time: 1, count: 1,
+                                      ctl: CtlKind { menu: 0, multi: false }, inner }];
+        v.extend(flat(width));
+        v
     } else { flat(width) };
-    let out = if cfg == "default" { build(&regs, &rec, None) } else { build(&regs, &rec, Some(&pool)) };
+    let out = if cfg == "default" || cfg == "defbatch" { build(&regs, &rec, None) } else { build(&regs, &rec, Some(&pool)) };
     let builder = match out.builder { Some(b) => b, None => return "builderr".into() };
     let rv = Arc::new(Rendezvous { width: width as usize, arrived: Mutex::new((0, 0)), cv: Condvar::new(), limit: Duration::from_millis(limit_ms),
                                    timed_out: Mutex::new(false), max_seen: Mutex::new(0) });
